@@ -934,9 +934,94 @@ Proof.
   cbn [skipn]. cbn in G. apply andb_true_iff in G. tauto.
 Qed.
 
+(** ** replace: whatever the substitution does to the single lines (remove new-lines, insert
+    new-lines), the line iterator it returns is the division into lines of the substituted text. *)
+Definition no_nl (t : text) : bool := forallb (fun c => negb (N.eqb c NL)) t.
+
+Lemma no_nl_app : forall a b, no_nl (a ++ b) = no_nl a && no_nl b.
+Proof. intros. apply forallb_app. Qed.
+
+Lemma full_line_of_no_nl : forall seg, no_nl seg = true -> is_full_line (seg ++ [NL]) = true.
+Proof.
+  induction seg as [|c seg IH]; intros H; [reflexivity|].
+  cbn in H. apply andb_true_iff in H as [Hc Hs]. apply negb_true_iff in Hc.
+  cbn [app]. apply is_full_line_cons; [exact Hc | now apply IH].
+Qed.
+
+Lemma rep_feed_spec : forall s seg ys seg' rest, no_nl seg = true -> rep_feed seg s = (ys, seg') ->
+  no_nl seg' = true /\ lines_lf (seg ++ s ++ rest) = ys ++ lines_lf (seg' ++ rest).
+Proof.
+  induction s as [|c s IH]; intros seg ys seg' rest Hs E; cbn [rep_feed] in E.
+  - injection E as <- <-. split; [exact Hs | reflexivity].
+  - destruct (c =? NL) eqn:Ec.
+    + destruct (rep_feed [] s) as [ys0 r0] eqn:E0. injection E as <- <-.
+      destruct (IH [] ys0 r0 rest eq_refl E0) as [H1 H2]. split; [exact H1|].
+      apply N.eqb_eq in Ec. subst c.
+      change (seg ++ (NL :: s) ++ rest) with (seg ++ [NL] ++ (s ++ rest)). rewrite app_assoc.
+      rewrite lines_lf_app_full by (now apply full_line_of_no_nl). cbn [app] in H2. rewrite H2. reflexivity.
+    + assert (Hs' : no_nl (seg ++ [c]) = true).
+      { rewrite no_nl_app, Hs. cbn. now rewrite Ec. }
+      destruct (IH (seg ++ [c]) ys seg' rest Hs' E) as [H1 H2]. split; [exact H1|].
+      rewrite <- H2. rewrite <- app_assoc. reflexivity.
+Qed.
+
+Lemma replace_lines_spec : forall sub ls seg, no_nl seg = true ->
+  replace_lines sub seg ls = lines_lf (seg ++ concat (map sub ls)).
+Proof.
+  intros sub. induction ls as [|l ls IH]; intros seg Hs; cbn [replace_lines map concat].
+  - rewrite app_nil_r. destruct seg as [|c seg]; [reflexivity|]. symmetry. apply lines_lf_partial. exact Hs.
+  - destruct (rep_feed seg (sub l)) as [ys seg'] eqn:E.
+    destruct (rep_feed_spec (sub l) seg ys seg' (concat (map sub ls)) Hs E) as [H1 H2].
+    rewrite H2. f_equal. now apply IH.
+Qed.
+
+Theorem lf_replace_spec : forall sub ls, lf_replace sub ls = lines_lf (concat (map sub ls)).
+Proof. intros. unfold lf_replace. now rewrite replace_lines_spec. Qed.
+
+(** a substitution is admitted when it maps admitted strings to admitted strings *)
+Definition sub_ok (sub : text -> text) : Prop := forall l, text_ok l = true -> text_ok (sub l) = true.
+
+Lemma lf_ok_replace : forall sub, sub_ok sub -> lf_ok (lf_replace sub).
+Proof.
+  intros sub Hs ls [_ H]. rewrite lf_replace_spec. apply good_lines_of_text.
+  rewrite text_ok_concat, forallb_map'. rewrite forallb_forall in *. intros l Hl. apply Hs, H, Hl.
+Qed.
+
+Lemma subst_go_forallb : forall (P : char -> bool) pat rep, forallb P rep = true ->
+  forall s skip, forallb P s = true -> forallb P (subst_go pat rep skip s) = true.
+Proof.
+  intros P pat rep Hr. induction s as [|c s IH]; intros skip H; [reflexivity|].
+  cbn in H. apply andb_true_iff in H as [Hc Hs]. cbn [subst_go]. destruct skip as [|k]; [|now apply IH].
+  destruct (is_prefix pat (c :: s)).
+  - rewrite forallb_app, Hr. now apply IH.
+  - cbn. rewrite Hc. now apply IH.
+Qed.
+
+Lemma sub_ok_subst : forall pat rep, text_ok rep = true -> sub_ok (subst pat rep).
+Proof.
+  intros pat rep Hr l Hl. unfold text_ok, no_exotic_breaks, valid_text in *.
+  apply andb_true_iff in Hr as [R1 R2]. apply andb_true_iff in Hl as [L1 L2].
+  unfold subst. rewrite !subst_go_forallb; auto.
+Qed.
+
+Lemma forallb_removelast : forall (P : char -> bool) l, forallb P l = true -> forallb P (removelast l) = true.
+Proof.
+  intros P. induction l as [|c l IH]; intros H; [reflexivity|]. cbn in H. apply andb_true_iff in H as [Hc Hl].
+  destruct l as [|d l]; [reflexivity|]. change (removelast (c :: d :: l)) with (c :: removelast (d :: l)).
+  cbn [forallb]. rewrite Hc. now apply IH.
+Qed.
+
+Lemma sub_ok_preserving_nl : forall sub, sub_ok sub -> sub_ok (sub_preserving_nl sub).
+Proof.
+  intros sub Hs l Hl. unfold sub_preserving_nl. destruct (N.eqb (last l 0) NL); [|now apply Hs].
+  rewrite text_ok_app. rewrite Hs; [reflexivity|].
+  unfold text_ok, no_exotic_breaks, valid_text in *. apply andb_true_iff in Hl as [L1 L2].
+  now rewrite !forallb_removelast.
+Qed.
+
 (** ** Expressions of the modelled surface language, SOURCE [-transformed-by T], satisfy the guard
     as soon as their texts and external programs do. *)
-Definition atom_ok (a : tatom) : Prop := match a with TRun g => g_ok g | _ => True end.
+Definition atom_ok (a : tatom) : Prop := match a with TRun g => g_ok g | TReplace sub => sub_ok sub | _ => True end.
 Definition trans_ok (t : trans) : Prop := match t with TAtom a => atom_ok a | TSeq l => Forall atom_ok l end.
 Definition otrans_ok (t : option trans) : Prop := match t with Some t => trans_ok t | None => True end.
 
@@ -948,6 +1033,7 @@ Proof.
   - split; [auto|]. split; [|reflexivity]. split; [apply lf_ok_upper | exact K].
   - split; [auto|]. split; [|reflexivity]. split; [apply lf_ok_filter | exact K].
   - split; [auto|]. split; [|reflexivity]. split; [exact A | exact K].
+  - split; [auto|]. split; [|reflexivity]. split; [now apply lf_ok_replace | exact K].
 Qed.
 
 Lemma fold_atoms_guard : forall l x, Forall atom_ok l -> fresh x -> lfs_ok x ->
